@@ -55,7 +55,8 @@ CallOK(e, c, cx) ==
     [] s = "setchar"  -> c[3] = (IF HasPrime(c[1], c[2]) /\ c[2] <= MaxChar(e.cls) THEN "ok" ELSE "invalid_argument")
     [] OTHER          -> FALSE
 
-Bad(e) == LET cx == Ctx(e) IN {i \in DOMAIN e.c : ~CallOK(e, e.c[i], cx)}
+(* the context is bound by a quantifier over a singleton: evaluated once per event *)
+Bad(e) == UNION {{i \in DOMAIN e.c : ~CallOK(e, e.c[i], cx)} : cx \in {Ctx(e)}}
 
 (* the variables of the register machine are not used by the trace specification *)
 TraceInit == l = 1 /\ nbad = 0 /\ fld = Field(2, 2) /\ reg = <<0, 0, 0>> /\ act = [op |-> "trace"]
